@@ -110,7 +110,7 @@ def lfda_case(rng, small_class=False):
     # a class with fewer than k + 1 members (its own k is capped at n_c - 1; the other classes keep theirs), in any position
     kparam = int(rng.integers(3, d))
     c = int(rng.integers(ncls))
-    drop = np.flatnonzero(y == c)[3:]
+    drop = np.flatnonzero(y == c)[(1 if rng.random() < 0.4 else 3):]        # (three members left, or a SINGLE one)
     keep = np.setdiff1d(np.arange(len(y)), drop)
     X, y = X[keep], y[keep]
   emb = str(rng.choice(['weighted', 'orthonormalized', 'plain']))
